@@ -559,7 +559,8 @@ def plain(cols, rows, crow, sb, step, props, mem=8):
 
 for step in ("Print", "PrintWrap", "CrLf"):
     for (cols, rows, crow, sb) in ((2, 2, 1, 1), (3, 2, 0, 0), (1, 2, 1, 2), (3, 3, 2, 1), (1, 1, 0, 1), (2, 3, 1, 0), (3, 1, 0, 2)):
-        quick = (cols, rows, crow, sb) in ((2, 2, 1, 1), (3, 2, 0, 0)) or ((cols, rows, crow, sb) == (1, 2, 1, 2) and step == "PrintWrap")
+        # one-row screens: the row left by a deferred wrap is row 0 and scrolls away at once (seed C09-c)
+        quick = (cols, rows, crow, sb) in ((2, 2, 1, 1), (3, 2, 0, 0)) or ((cols, rows, crow, sb) in ((1, 2, 1, 2), (3, 1, 0, 2), (1, 1, 0, 1)) and step == "PrintWrap")
         plain(cols, rows, crow, sb, step, {"C09": Q if quick else T, "C01": T})
 
 inst("vt_glue__2x2", "vt", "t_vt_glue(2, 2)", 36, {"C12": Q, "C20": T, "C01": T}, mem=10, timeout=1500,
